@@ -128,8 +128,8 @@ func TestVerif_C27(t *testing.T) {
 	rnd := kit.Rand(27)
 	ctx := context.Background()
 	names := []string{"a", "b", "ab", "A", "Ab"}
-	nTrees := kit.Pick(8, 44)
-	perTree := kit.Pick(56, 270)
+	nTrees := kit.Pick(8, 36)
+	perTree := kit.Pick(56, 200)
 	n := 0
 	for ti := 0; ti < nTrees; ti++ {
 		e := newVEnv(t, nil) // a fresh repository per tree keeps the index small
